@@ -11,7 +11,7 @@ pub const LEXEMES: &[&str] = &[
     "knock", "up", "down", "cut", "join", "cast", "turn", "round", "rock", "roll", "takes", "taking", "return",
     "give", "back", "&", "'n'", ",", ".", "\n",
     // comments, multi-line tokens, error tokens
-    "(c)", "(a\nb)", "\"a\nb\"", "a1", "_", "\"u", "(u",
+    "(c)", "(a\nb)", "\"a\nb\"", "a1", "_", "\"u", "(u", "€", "x€", "“x”", "İx's",
 ];
 
 pub fn join(lexemes: &[&str]) -> String {
